@@ -5,7 +5,7 @@ Import ListNotations.
 From FP Require Import Lin Blocks BlocksProofs PathEnc Euler EulerProofs1 EulerProofs4 DagDecode PathEncProofs
                        PathEncComplete WfCheck CheckedInstances
                        ErrEnc ErrEncProofs ErrEncProofs2 ErrEncProofs3 ErrEncComplete ErrEncOptimal ErrEncKlae ErrEncOptimal2
-                       ErrEncGiven ErrEncGivenMpe ErrEncChecked ErrEncExamples.
+                       ErrEncGiven ErrEncGivenMpe ErrEncGivenCons ErrEncChecked ErrEncExamples.
 Local Close Scope Q_scope.
 
 (* THE property with executable premises (kmpe_premises_b is evaluated by the extracted driver on every E1 instance), for
@@ -86,8 +86,37 @@ Theorem C08_kmpe_given_optimal : forall (M : kmpe_inst) (ws : list Q) (a : var -
 Proof. exact kmpe_given_optimal. Qed.
 Print Assumptions C08_kmpe_given_optimal.
 
-(* NOT covered by the completeness / optimality theorems: path-length factors (feasibility refuted below: open findings),
-   and given weights together with subpath constraints. *)
+(* solution_weights_superset TOGETHER WITH subpath constraints (no length factors): layers may be empty, every constraint is
+   realised to the required fraction by one layer; the LP optimum is the minimum of the slack sum over all such choices *)
+Theorem C08_kmpe_given_optimal_with_constraints : forall (M : kmpe_inst) (ws : list Q) (a : var -> Q) (rank : node -> nat) (Rm : nat),
+  e_given (m_err M) = Some ws -> m_pieces M = [] -> wf_graph (eG (m_err M)) -> p_allow_empty (e_base (m_err M)) = true ->
+  length ws = eK (m_err M) -> lengths_ok M ->
+  (forall u v, In (u, v) (g_edges (eG (m_err M))) -> (rank u < rank v)%nat) -> (forall v, (rank v <= Rm)%nat) ->
+  (forall c e, In c (p_cons (e_base (m_err M))) -> In e c -> In e (g_edges (eG (m_err M))) /\ (0 <= elen (e_base (m_err M)) e)%Q) ->
+  sat a (encode_kmpe M) -> (forall b, sat b (encode_kmpe M) -> (objective a (encode_kmpe M) <= objective b (encode_kmpe M))%Q) ->
+  (exists P sl, kmpe_given_choice M ws P sl /\ constraints_covered (e_base (m_err M)) P /\
+                (sumq sl (layers (eK (m_err M))) == objective a (encode_kmpe M))%Q) /\
+  (forall P sl, kmpe_given_choice M ws P sl -> constraints_covered (e_base (m_err M)) P ->
+                (objective a (encode_kmpe M) <= sumq sl (layers (eK (m_err M))))%Q).
+Proof. exact kmpe_given_optimal_cons. Qed.
+Print Assumptions C08_kmpe_given_optimal_with_constraints.
+
+Theorem C08_kmpe_given_complete_with_constraints : forall (M : kmpe_inst) (ws : list Q) (P : N -> list node) (sl : N -> Q),
+  e_given (m_err M) = Some ws -> m_pieces M = [] -> wf_graph (eG (m_err M)) -> p_allow_empty (e_base (m_err M)) = true ->
+  length ws = eK (m_err M) -> lengths_ok M ->
+  (forall c e, In c (p_cons (e_base (m_err M))) -> In e c -> (0 <= elen (e_base (m_err M)) e)%Q) ->
+  kmpe_given_choice M ws P sl -> constraints_covered (e_base (m_err M)) P ->
+  exists a, sat a (encode_kmpe M) /\ (objective a (encode_kmpe M) == sumq sl (layers (eK (m_err M))))%Q /\
+            (forall u v i, a (Edge u v i) = onq P i (u, v)) /\ (forall i, a (Slack i) = sl i).
+Proof. exact kmpe_given_complete_cons. Qed.
+Print Assumptions C08_kmpe_given_complete_with_constraints.
+
+Example C08_given_with_constraints_example :
+  sat (gmasgc wit_gc_M wit_gc_P (fun i => match i with 0%N => 2%Q | _ => 0%Q end) (fun _ => 0%N)) (encode_kmpe wit_gc_M) /\
+  (objective (gmasgc wit_gc_M wit_gc_P (fun i => match i with 0%N => 2%Q | _ => 0%Q end) (fun _ => 0%N)) (encode_kmpe wit_gc_M) == 2)%Q.
+Proof. exact kmpe_given_cons_example. Qed.
+
+(* NOT covered by the completeness / optimality theorems: path-length factors (feasibility refuted below: open findings). *)
 
 Theorem C08_kmpe_enc_sound : forall (M : kmpe_inst) (a : var -> Q) (rank : node -> nat) (Rm : nat),
   let I := m_err M in let G := eG I in let k := eK I in
